@@ -131,11 +131,16 @@ class World:
     def _snap1(self, o):
         if isinstance(o, Obj) and "dim_list" in o.f:
             dl = o.f["dim_list"]
-            return ("ds", o, id(dl), tuple(id(d) for d in dl), tuple((d.f["letter"], tuple(d.f["items"])) for d in dl))
+            # the list OBJECT is not part of the snapshot: pydantic re-runs a model's after-validators when the instance is handed to a
+            # model-typed field, and DimensionSet.copy_dim_list then swaps the list for an equal copy - the set itself is unchanged
+            return ("ds", o, 0, tuple(id(d) for d in dl), tuple((d.f["letter"], tuple(d.f["items"])) for d in dl))
         if isinstance(o, Obj) and "values" in o.f and "dims" in o.f:
             v = o.f["values"]
             vs = (id(v), v.buf.bid, v.buf.writes, tuple(v.axes), v.term) if isinstance(v, AArr) else ("nonarray", repr(v))
-            return ("arr", o, vs, self._snap1(o.f["dims"]), id(o.f["dims"]), o.f.get("name"))
+            # the dims of an array by CONTENT (letters and items in order): pydantic re-runs FlodymArray.copy_dims when the array is handed
+            # to a model-typed field (a stock's inflow=..., a system's flows=...), which swaps the dims object for an equal copy
+            dl = o.f["dims"].f.get("dim_list", []) if isinstance(o.f["dims"], Obj) else []
+            return ("arr", o, vs, ("ds", None, 0, 0, tuple((d.f["letter"], tuple(d.f["items"])) for d in dl)), 0, o.f.get("name"))
         if isinstance(o, AArr):
             return ("nd", o, (o.buf.bid, o.buf.writes, tuple(o.axes), o.term))
         if isinstance(o, Obj):
